@@ -55,8 +55,35 @@ func rsaSignSHA1(keyName string, msg []byte) []byte {
 	return sig
 }
 
+// forgeE3 makes, WITHOUT the private key, octets whose cube begins with 00 01 FF*8 00 || DigestInfo(SHA-256, digest) and goes on with
+// whatever comes out: a verifier that does not insist on the padding filling the whole block takes it for a signature under a key
+// with public exponent 3 (Bleichenbacher 2006).  It is not a valid RSA-SHA256 signature.
+func forgeE3(n *big.Int, digest []byte) []byte {
+	k := (n.BitLen() + 7) / 8
+	pre := append([]byte{0x00, 0x01, 0xff, 0xff, 0xff, 0xff, 0xff, 0xff, 0xff, 0xff, 0x00},
+		0x30, 0x31, 0x30, 0x0d, 0x06, 0x09, 0x60, 0x86, 0x48, 0x01, 0x65, 0x03, 0x04, 0x02, 0x01, 0x05, 0x00, 0x04, 0x20)
+	pre = append(pre, digest...)
+	lo := new(big.Int).SetBytes(append(append([]byte{}, pre...), make([]byte, k-len(pre))...))
+	// integer cube root by bisection, rounded up
+	a, b := big.NewInt(0), new(big.Int).Lsh(big.NewInt(1), uint(n.BitLen()/3+2))
+	for new(big.Int).Sub(b, a).Cmp(big.NewInt(1)) > 0 {
+		m := new(big.Int).Rsh(new(big.Int).Add(a, b), 1)
+		if new(big.Int).Exp(m, big.NewInt(3), nil).Cmp(lo) < 0 {
+			a = m
+		} else {
+			b = m
+		}
+	}
+	out := make([]byte, k)
+	b.FillBytes(out)
+	return out
+}
+
 func rsaSign(keyName string, msg []byte) []byte {
 	h := sha256.Sum256(msg)
+	if keyName == "forge_e3" {
+		return forgeE3(testKey("ke3").N, h[:])
+	}
 	ck := keyName + string(h[:])
 	if v, ok := signCache.Load(ck); ok {
 		return v.([]byte)
@@ -102,6 +129,7 @@ var encAlgOIDs = map[string]asn1.ObjectIdentifier{
 }
 
 var sidCerts = map[string][3]string{"A": {"k1", "i1", "s1"}, "B": {"k2", "i2", "s2"}, "At": {"k2", "i1", "s1"}, "C": {"k3", "i2", "s1"},
+	"E3": {"ke3", "i2", "7f"}, // a certificate whose RSA key has public exponent 3
 	"Ca": {"k3", "ca", "7f"}, "CaSub": {"k3", "ca", "7f"}} // Ca: issued by a separate CA (issuer != subject); signer id CaSub names its subject
 
 func certByName(n string) *x509.Certificate {
@@ -158,6 +186,9 @@ func contentValue(ct, id string, digests map[string][]byte) []byte {
 	if id == "none" || id == "" {
 		return nil
 	}
+	if id == "empty" {
+		return []byte{} // encapsulated, and of length zero: the content field is there (A0 02 30 00 / A0 02 04 00)
+	}
 	if ct == "spc" {
 		d := digests[id]
 		if d == nil {
@@ -207,7 +238,12 @@ func buildSymBlob(ct, content string, signers []symSigner, certs string, wrap bo
 			}
 			// DER order = ascending encodings; here: contentType < signingTime < messageDigest
 			canon = bytes.Join(list, nil)
-			if s.Order == "swapped" && len(list) > 1 {
+			if strings.HasPrefix(s.Order, "dup_") {
+				// the attributes as the signer made them, and behind them a second messageDigest attribute (of the content named
+				// after the underscore) that somebody appended later
+				d2 := sha256.Sum256(contentValue(ct, s.Order[len("dup_"):], digests))
+				attrs = append(append([]byte{}, canon...), attrTLV(oidMsgDigest, derTLV(0x04, d2[:]))...)
+			} else if s.Order == "swapped" && len(list) > 1 {
 				sw := append([][]byte{list[len(list)-1]}, list[:len(list)-1]...)
 				attrs = bytes.Join(sw, nil)
 			} else {
